@@ -50,6 +50,8 @@ def apply_corruption(data, kind, path, key, value):
         d[key] = json.loads(value)
     elif kind == 'remove_top':
         del d[key]
+    elif kind == 'wrap_visibility':
+        d['observation_function'] = {'name': 'from_visibility', 'area': node['area'], 'visibility_function': json.loads(value)}
     return d
 
 
@@ -389,7 +391,7 @@ def run(ctx, replay=None):
             elif out == 'accept' and kind == 'set_top' and key == 'action_space' and [a.name for a in env.action_space.actions] != json.loads(value):
                 ctx.violation(f'{name}: configured action order {value} became {[a.name for a in env.action_space.actions]}',
                               {'kind': 'corruption', 'file': name, 'corruption': [kind, cpath, key, value]})
-            elif out == 'accept' and kind in ('add_param', 'remove_param', 'set_value', 'set_top'):
+            elif out == 'accept' and kind in ('add_param', 'remove_param', 'set_value', 'set_top', 'wrap_visibility'):
                 # still the described environment: compare with the hand-assembled one
                 env3 = hand_assemble(snapshot, table)
                 cfg = config.spec_config(snapshot)
